@@ -205,6 +205,18 @@ pub mod rt {
                         acc
                     }),
                     "skiplast" => opt(it.skip(1).last(), show),
+                    "rposition" => match it.rposition(|_| true) {
+                        Some(p) => format!("P{}", p),
+                        None => "PN".to_string(),
+                    },
+                    x if x.starts_with("takerev:") => {
+                        let k: usize = x[8..].parse().unwrap();
+                        list(&it.take(k).rev().collect::<Vec<_>>(), show)
+                    }
+                    x if x.starts_with("skiprev:") => {
+                        let k: usize = x[8..].parse().unwrap();
+                        list(&it.skip(k).rev().collect::<Vec<_>>(), show)
+                    }
                     "stepby2" => list(&it.step_by(2).collect::<Vec<_>>(), show),
                     _ => panic!("HARNESS: unknown op {}", op),
                 };
